@@ -20,24 +20,29 @@ import traceback
 
 import numpy as np
 
-from mc.common import Collector, angle_diff, close, make_2d, reshape_lead
+from mc.common import Collector, _space, angle_diff, close, reshape_lead
 
 ID = "C02"
 LEVEL = "exploration"
 RULE = (
     "full product: direction grid (uniform N x start {0, 7.5, 350 monotone, 350 wrapped mod 360, -170}; "
     "non-uniform: alternating widths, one 100-degree bin in the middle / as the wrap bin, one 179-degree bin, "
-    "linearly growing widths) x layout {(), (time), (time,latitude), flattened} x member, member = base density "
+    "linearly growing widths; jittered-uniform grids whose widths all round to the same whole degree: nodes moved "
+    "alternately by +-0.15 deg / one node moved by 0.3 deg; integer-dtype (int64) uniform coordinates) x layout {(), (time), (time,latitude), flattened} x member, member = base density "
     "(impulse in every bin, every impulse pair for N<=12, uniform, cos^2 lobe on every bin, all-zero, all-NaN) x "
     "hole {none, zero bin at every position, NaN bin at every position}. Named restriction 'scalar_layout_subset': "
     "layout () runs, without hole, the impulse in every bin, uniform, two lobes, two pairs, all-zero, all-NaN, and "
     "impulse 0 / uniform / lobe 0 with a NaN at their maximum and a zero in the last (wrap) bin, on the first two "
     "bands only (one xarray call per member and quantity). A member is non-trivial when at least two of its four "
     "frequencies carry energy (so moments, peak and band averages are all compared); distinct = distinct "
-    "(grid, base, hole) triples, counted once (in the (time) layout). History family (units 'history:*'): on two "
+    "(grid, base, hole) triples, counted once (in the (time) layout). Named restriction 'extra_grid_layouts': in "
+    "the quick tier the jittered and integer grids run the (time) and flattened layouts only. Three grids also run "
+    "the layout 'time_T' (spectral dimensions stored as (direction, frequency)). Every library result is fitted to "
+    "one entry per member; a size mismatch (e.g. a conversion that drops members) is a violation. History family (units 'history:*'): on two "
     "grids (thorough: four) x every layout, EVERY sequence of length 1..3 over the operation alphabet {read e, read "
     "a1..b2, read hm0, as_frequency_spectrum} + {multiply(full shape, inplace), multiply(per direction, inplace), "
-    "fillna(1.0), spec['variance_density']=..., spec.dataset['variance_density']=...} is executed on a fresh object "
+    "fillna(1.0), spec['variance_density']=..., spec.dataset['variance_density']=..., in-place write into the "
+    "object's own buffer spec.values[...] *= w} is executed on a fresh object "
     "holding six members (layout (): one member, a second one for length <= 2); every read is compared with the "
     "reference computed from the variance density the object holds at that moment, and after the last step the "
     "object is converted and e, the moments, their bounds, hm0 and the 2D->1D parity are checked against that "
@@ -59,6 +64,7 @@ REQUIRED_CATEGORIES = [
     "parity_compared", "parity_direction_compared", "layout_scalar", "layout_time", "layout_time_lat", "layout_flat",
     "integrate_spectral_data_compared", "numba_quadrature_compared", "depth_nan", "depth_finite",
     "history_executed", "history_read_then_mutate", "history_mutation_steps", "history_fillna_filled_bins",
+    "grid_jittered", "grid_integer_dtype", "layout_time_T",
 ]
 
 F = np.array([0.05, 0.1, 0.2, 0.35])
@@ -68,13 +74,50 @@ ROW_OFF = (0, 0, 1, 5)              # row i of member m is ROW_COEF[i] * density
 BANDS = [None, (0.1, 0.35), (0.05, 0.1)]   # default band, edges on nodes, single-node band (m0 = 0)
 DEPTHS = [np.inf, 5.0, 50.0, np.nan, 5000.0, 0.5]
 LAYOUTS = ("scalar", "time", "time_lat", "flat")
-LEAD_NAMES = {"scalar": (), "time": ("time",), "time_lat": ("time", "latitude"), "flat": ("linear_index",)}
+# "time_T": leading dimension time, spectral dimensions stored as (direction, frequency)
+LEAD_NAMES = {"scalar": (), "time": ("time",), "time_lat": ("time", "latitude"), "flat": ("linear_index",),
+              "time_T": ("time",)}
+TRANSPOSED_GRIDS = ("uni8@7.5", "alt12@0", "int12@0")   # grids that also run the "time_T" layout
+EXTRA_LAYOUTS_QUICK = ("time", "flat")                  # named restriction 'extra_grid_layouts' (quick tier)
+
+
+class ShapeMismatch(Exception):
+    """a library result does not have one entry per member; reported as a violation, never a harness error."""
+
+    def __init__(self, check, what):
+        super().__init__(what)
+        self.check, self.what = check, what
+
+
+def fit(v, shape, check, what):
+    v = np.asarray(v)
+    if v.size != int(np.prod(shape)):
+        raise ShapeMismatch(check, f"{what}: shape {v.shape}, expected {tuple(shape)} (one entry per member)")
+    return v.reshape(shape)
+
+
+def make_2d(f, d, E, depth=np.inf, flat=False, transposed=False):
+    """as mc.common.make_2d, but the direction coordinate keeps its dtype (integer grids) and the spectral
+    dimensions can be stored as (direction, frequency)."""
+    from ocean_science_utilities.wavespectra.spectrum import create_2d_spectrum
+
+    E = np.asarray(E, dtype=float)
+    lead = E.shape[:-2]
+    sp, dims = _space(lead)
+    dep = np.broadcast_to(np.asarray(depth, dtype=float), lead).copy() if lead else float(depth)
+    sdims = ("frequency", "direction")
+    if transposed:
+        E = np.ascontiguousarray(np.swapaxes(E, -1, -2))
+        sdims = ("direction", "frequency")
+    s = create_2d_spectrum(np.asarray(f, dtype=float), np.asarray(d), E, sp["time"], sp["latitude"], sp["longitude"],
+                           dims=dims + sdims, depth=dep)
+    return s.flatten() if flat else s
 MAX_CELLS = 2_000_000   # doubles per batch array
 
 # history family: one object, a sequence of reads and in-place modifications (see run_history)
 HISTORY_GRIDS = {"quick": ["alt8@350w", "uni12@7.5"], "thorough": ["uni36@-170", "widewrap12@0"]}
 HISTORY_READS = ("e", "moments", "hm0", "as1d")
-HISTORY_MUTATORS = ("mul_full", "mul_direction", "fillna", "setitem", "dataset_assign")
+HISTORY_MUTATORS = ("mul_full", "mul_direction", "fillna", "setitem", "dataset_assign", "values_inplace")
 HISTORY_OPS = HISTORY_READS + HISTORY_MUTATORS
 HISTORY_MAXLEN = 3
 
@@ -110,6 +153,34 @@ def grids(tier):
         from_widths(f"grow{n}@7.5", 7.5, [float(j + 1) for j in range(n)])
     from_widths("alt8@350w", 350.0, [0.5 if j % 2 == 0 else 1.5 for j in range(8)], wrap=True)
     from_widths("wide179_8@0", 0.0, [179.0 if j == 3 else 181.0 / 7 for j in range(8)])
+
+    # mildly irregular ("jittered uniform") grids: every width rounds to the same whole number of degrees
+    def jitter(name, n, start, kind, wrap=False):
+        step = 360.0 / n
+        th = [start + j * step for j in range(n)]
+        if kind == "alt":
+            th = [t + (0.15 if j % 2 else -0.15) for j, t in enumerate(th)]
+        else:
+            th[3] += 0.3
+        if wrap:
+            th = [t % 360.0 for t in th]
+        out.append({"name": name, "theta": th, "uniform": False, "start": start, "wrapped": wrap, "extra": "jitter"})
+
+    jitter("jit12alt@0", 12, 0.0, "alt")
+    jitter("jit8one@7.5", 8, 7.5, "one")
+    if tier == "thorough":
+        jitter("jit36alt@350w", 36, 350.0, "alt", wrap=True)
+        jitter("jit36one@-170", 36, -170.0, "one")
+        jitter("jit72alt@0", 72, 0.0, "alt")
+    # integer-dtype direction coordinates (theta holds python ints -> int64 coordinate)
+    for n, start, wrap in ((8, 0, False), (12, 0, False), (12, 350, True), (36, 0, False)) + (
+            ((72, 0, False), (36, 350, True)) if tier == "thorough" else ()):
+        step = 360 // n
+        th = [start + j * step for j in range(n)]
+        if wrap:
+            th = [t % 360 for t in th]
+        out.append({"name": f"int{n}@{start}{'w' if wrap else ''}", "theta": th, "uniform": True, "start": float(start),
+                    "wrapped": wrap, "extra": "int"})
     return out
 
 
@@ -171,7 +242,12 @@ def units(tier):
     us = []
     for g in grids(tier):
         n = len(g["theta"])
-        for layout in LAYOUTS:
+        layouts = LAYOUTS
+        if g.get("extra") and tier == "quick":
+            layouts = EXTRA_LAYOUTS_QUICK
+        if g["name"] in TRANSPOSED_GRIDS:
+            layouts = tuple(layouts) + ("time_T",)
+        for layout in layouts:
             cost = n * n if layout != "scalar" else 6 * n * n
             us.append({"name": f"{g['name']}:{layout}", "grid": g["name"], "layout": layout, "cost": cost})
     for gname in HISTORY_GRIDS["quick"] + (HISTORY_GRIDS["thorough"] if tier == "thorough" else []):
@@ -363,6 +439,8 @@ def run_unit(unit):
     c.cat("grid_uniform" if g["uniform"] else "grid_nonuniform")
     c.cat("grid_start_nonzero", int(g["start"] != 0.0))
     c.cat("grid_wrapped_coordinates", int(g["wrapped"]))
+    c.cat("grid_jittered", int(g.get("extra") == "jitter"))
+    c.cat("grid_integer_dtype", int(g.get("extra") == "int"))
     c.cat("layout_" + layout)
 
     if layout == "scalar":
@@ -380,11 +458,13 @@ def run_unit(unit):
         if layout == "scalar":
             Ein, depin = E[0], dep[0]
         else:
-            Ein = reshape_lead(E, layout, (NF, n))
+            Ein = E if layout == "time_T" else reshape_lead(E, layout, (NF, n))
             depin = dep.reshape(Ein.shape[:-2])
         try:
             check_chunk(c, rep, g, layout, theta, w_ref, labels, chunk, E, Ein, depin, dep, e_ref, mom_ref,
                         bulk_ref, first)
+        except ShapeMismatch as exc:
+            rep(exc.check, exc.what, labels[chunk[0]])
         except Exception as exc:  # library raised inside the property's domain
             tb = traceback.format_exc()
             if traceback.extract_tb(exc.__traceback__)[-1].filename.startswith("/verif/"):
@@ -410,14 +490,13 @@ def check_chunk(c, rep, g, layout, theta, w_ref, labels, chunk, E, Ein, depin, d
     n = len(theta)
     nc = len(chunk)
     lead_names = LEAD_NAMES[layout]
-    s2 = make_2d(F, np.array(theta), Ein, depth=depin, flat=(layout == "flat"))
+    s2 = make_2d(F, np.array(theta), Ein, depth=depin, flat=(layout == "flat"), transposed=(layout == "time_T"))
     c.evaluations += nc
     idx = np.array(chunk)
     lab = lambda i: labels[chunk[i]]  # noqa: E731
 
-    def flat(v, trailing=()):
-        v = np.asarray(v)
-        return v.reshape((nc,) + tuple(trailing))
+    def flat(v, trailing=(), check="result shape", what="library result"):
+        return fit(v, (nc,) + tuple(trailing), check, what)
 
     # ---- bin widths --------------------------------------------------------------------------
     if first:
@@ -442,7 +521,7 @@ def check_chunk(c, rep, g, layout, theta, w_ref, labels, chunk, E, Ein, depin, d
     if tuple(e_da.dims) != lead_names + ("frequency",):
         rep("e dims", f"e has dims {e_da.dims}, expected {lead_names + ('frequency',)}")
         return
-    e_lib = flat(_vals(e_da), (NF,))
+    e_lib = flat(_vals(e_da), (NF,), "e shape", "e")
     bad = ~close(e_lib, eref, rtol=1e-12, atol=0.0)
     for i, fi in zip(*np.nonzero(bad)):
         rep("e", f"e(f{fi})={e_lib[i, fi]!r}, sum E dtheta over non-NaN bins = {eref[i, fi]!r}", lab(i), f=int(fi),
@@ -456,7 +535,7 @@ def check_chunk(c, rep, g, layout, theta, w_ref, labels, chunk, E, Ein, depin, d
         if tuple(da.dims) != lead_names + ("frequency",):
             rep(nm + " dims", f"{nm} has dims {da.dims}")
             return
-        v = flat(_vals(da), (NF,))
+        v = flat(_vals(da), (NF,), nm + " shape", nm)
         moms[nm] = v
         with np.errstate(invalid="ignore"):
             bad = pos & ~(np.abs(v - mref[q]) <= 1e-12)
@@ -517,7 +596,7 @@ def check_chunk(c, rep, g, layout, theta, w_ref, labels, chunk, E, Ein, depin, d
         if tuple(r.dims) != names:
             rep("integrate_spectral_data dims", f"dims={dims}: result dims {r.dims}, expected {names}")
             continue
-        v = flat(_vals(r), trailing)
+        v = flat(_vals(r), trailing, "integrate_spectral_data shape", f"integrate_spectral_data dims={dims}")
         bad = ~close(v, ref, rtol=1e-12, atol=0.0)
         if bad.ndim > 1:
             bad = bad.any(axis=tuple(range(1, bad.ndim)))
@@ -551,7 +630,7 @@ def check_chunk(c, rep, g, layout, theta, w_ref, labels, chunk, E, Ein, depin, d
         if tuple(da.dims) != lead_names + ("frequency",):
             rep("as_frequency_spectrum dims", f"{nm} has dims {da.dims}")
             return
-        v = flat(_vals(da), (NF,))
+        v = flat(_vals(da), (NF,), "conversion shape", f"as_frequency_spectrum() {nm}")
         bad = ~close(v, ref, rtol=1e-12).all(axis=1)
         for i in np.nonzero(bad)[0][:3]:
             rep("as_frequency_spectrum " + nm, f"1D {nm}={v[i].tolist()} but the 2D object gives {ref[i].tolist()}",
@@ -590,10 +669,10 @@ def check_chunk(c, rep, g, layout, theta, w_ref, labels, chunk, E, Ein, depin, d
         c.cat("parity_compared", nc)
 
     # ---- carried variables against the inputs ------------------------------------------------------------
-    depv = flat(o1["dataset.depth"][1])
+    depv = flat(o1["dataset.depth"][1], (), "conversion shape", "as_frequency_spectrum() depth")
     if not np.all(close(depv, dep, rtol=0.0)):
         rep("depth carried", f"1D depth {depv[:6].tolist()} vs input {dep[:6].tolist()}")
-    if not np.all(close(flat(o1["coord.depth"][1]), np.where(np.isnan(dep), np.inf, dep), rtol=0.0)):
+    if not np.all(close(flat(o1["coord.depth"][1], (), "conversion shape", "depth property"), np.where(np.isnan(dep), np.inf, dep), rtol=0.0)):
         rep("depth property", "depth property of the 1D object differs from the input (NaN -> inf)")
     for p in ("time", "latitude", "longitude"):
         for getter in (lambda s: s.dataset[p], lambda s: getattr(s, p)):
@@ -606,7 +685,7 @@ def check_chunk(c, rep, g, layout, theta, w_ref, labels, chunk, E, Ein, depin, d
     for b, band in enumerate(BANDS[:nbands]):
         rb = {k: v[idx] for k, v in bulk_ref[b].items()}
         for oname, o in (("2D", o2), ("1D", o1)):
-            get = lambda fn: flat(o[f"{fn}[{b}]"][1]).astype(float)  # noqa: E731
+            get = lambda fn: flat(o[f"{fn}[{b}]"][1], (), "bulk shape", f"{oname} {fn}").astype(float)  # noqa: E731
             for fn, okmask in (("m0", None), ("hm0", None), ("tm01", rb["ratio_ok"]), ("tm02", rb["ratio_ok"]),
                                ("mean_a1", rb["mean_ok"]), ("mean_b1", rb["mean_ok"]),
                                ("mean_a2", rb["mean_ok"]), ("mean_b2", rb["mean_ok"])):
@@ -700,6 +779,8 @@ def run_history(unit):
                 continue
             try:
                 one_history(c, rep, g, layout, theta, lead_names, E0, nm, hist, wdir)
+            except ShapeMismatch as exc:
+                rep("history " + exc.check, f"{exc.what} in history {hist}", history=hist)
             except Exception as exc:
                 if traceback.extract_tb(exc.__traceback__)[-1].filename.startswith("/verif/"):
                     raise
@@ -740,7 +821,7 @@ def one_history(c, rep, g, layout, theta, lead_names, E0, nm, hist, wdir):
 
     def current():
         """the variance density the object holds NOW, and the reference quantities that follow from it."""
-        cur = np.array(_vals(s.variance_density), dtype=float).reshape(nm, NF, n)
+        cur = fit(np.array(_vals(s.variance_density), dtype=float), (nm, NF, n), "history shape", "variance_density")
         return (cur,) + ref_from_density(theta, cur)
 
     def fail(step, what, **detail):
@@ -748,7 +829,7 @@ def one_history(c, rep, g, layout, theta, lead_names, E0, nm, hist, wdir):
             history=list(hist), step=step, **detail)
 
     def chk_e(step, v, ref_e, what="e"):
-        v = np.asarray(v, dtype=float).reshape(nm, NF)
+        v = fit(np.asarray(v, dtype=float), (nm, NF), "history shape", what)
         if not np.all(close(v, ref_e, rtol=1e-12)):
             i = int(np.argwhere(~close(v, ref_e, rtol=1e-12))[0][0])
             fail(step, what, msg=f"{what}={v[i].tolist()} but the current variance density gives {ref_e[i].tolist()}")
@@ -759,7 +840,7 @@ def one_history(c, rep, g, layout, theta, lead_names, E0, nm, hist, wdir):
         pos = ref_e > 0
         ok = True
         for q, nmq in enumerate(("a1", "b1", "a2", "b2")):
-            v = np.asarray(vals[q], dtype=float).reshape(nm, NF)
+            v = fit(np.asarray(vals[q], dtype=float), (nm, NF), "history shape", what + " " + nmq)
             with np.errstate(invalid="ignore"):
                 bad = pos & ~(np.abs(v - ref_mom[q]) <= 1e-12)
                 badb = pos & ~(np.abs(v) <= 1.0 + 1e-12)
@@ -772,8 +853,8 @@ def one_history(c, rep, g, layout, theta, lead_names, E0, nm, hist, wdir):
                 i, fi = np.argwhere(badb)[0]
                 fail(step, what + " bound", msg=f"|{nmq}(f{fi})|={abs(v[i, fi])} > 1")
                 ok = False
-        a1 = np.asarray(vals[0], dtype=float).reshape(nm, NF)
-        b1 = np.asarray(vals[1], dtype=float).reshape(nm, NF)
+        a1 = fit(np.asarray(vals[0], dtype=float), (nm, NF), "history shape", what)
+        b1 = fit(np.asarray(vals[1], dtype=float), (nm, NF), "history shape", what)
         with np.errstate(invalid="ignore"):
             bad = pos & ~(a1 ** 2 + b1 ** 2 <= 1.0 + 1e-12)
         if bad.any():
@@ -786,7 +867,7 @@ def one_history(c, rep, g, layout, theta, lead_names, E0, nm, hist, wdir):
         ok = chk_e(step, _vals(s1.dataset["variance_density"]), ref_e, "as_frequency_spectrum variance_density")
         ok &= chk_mom(step, [_vals(s1.dataset[k]) for k in ("a1", "b1", "a2", "b2")], ref_e, ref_mom,
                       "as_frequency_spectrum moments")
-        h1 = np.asarray(_vals(s1.hm0()), dtype=float).reshape(nm)
+        h1 = fit(np.asarray(_vals(s1.hm0()), dtype=float), (nm,), "history shape", "1D hm0")
         if not np.all(close(h1, ref_hm0, rtol=1e-12)):
             fail(step, "as_frequency_spectrum hm0", msg=f"1D Hm0 {h1.tolist()} but the 2D variance density gives "
                  f"{ref_hm0.tolist()}")
@@ -801,7 +882,7 @@ def one_history(c, rep, g, layout, theta, lead_names, E0, nm, hist, wdir):
             elif op == "moments":
                 chk_mom(step, [_vals(getattr(s, k)) for k in ("a1", "b1", "a2", "b2")], ref_e, ref_mom)
             elif op == "hm0":
-                h = np.asarray(_vals(s.hm0()), dtype=float).reshape(nm)
+                h = fit(np.asarray(_vals(s.hm0()), dtype=float), (nm,), "history shape", "hm0")
                 if not np.all(close(h, ref_hm0, rtol=1e-12)):
                     fail(step, "hm0", msg=f"Hm0 {h.tolist()} but the current variance density gives {ref_hm0.tolist()}")
             elif op == "as1d":
@@ -818,6 +899,9 @@ def one_history(c, rep, g, layout, theta, lead_names, E0, nm, hist, wdir):
             s["variance_density"] = da.copy(data=2.0 * _vals(da)[..., ::-1] + 0.25)
         elif op == "dataset_assign":
             s.dataset["variance_density"] = 0.5 * s.dataset["variance_density"].roll(direction=1, roll_coords=False)
+        elif op == "values_inplace":
+            buf = s.values            # the object's own buffer, edited in place (no new backing array)
+            buf *= 1.0 + (np.arange(n) % 2) * 1.5
         else:
             raise AssertionError(op)
 
@@ -832,13 +916,13 @@ def one_history(c, rep, g, layout, theta, lead_names, E0, nm, hist, wdir):
         fail(last, "e dims", msg=f"e has dims {e_da.dims}")
         return
     chk_e(last, _vals(e_da), ref_e, "final e")
-    h = np.asarray(_vals(s.hm0()), dtype=float).reshape(nm)
+    h = fit(np.asarray(_vals(s.hm0()), dtype=float), (nm,), "history shape", "hm0")
     if not np.all(close(h, ref_hm0, rtol=1e-12)):
         fail(last, "final hm0", msg=f"Hm0 {h.tolist()} but the current variance density gives {ref_hm0.tolist()}")
     if len(hist) <= 2:
         chk_mom(last, [_vals(getattr(s, k)) for k in ("a1", "b1", "a2", "b2")], ref_e, ref_mom, "final moments")
-        a = np.asarray(_vals(s.mean_direction()), dtype=float).reshape(nm)
-        b = np.asarray(_vals(s1.mean_direction()), dtype=float).reshape(nm)
+        a = fit(np.asarray(_vals(s.mean_direction()), dtype=float), (nm,), "history shape", "mean_direction")
+        b = fit(np.asarray(_vals(s1.mean_direction()), dtype=float), (nm,), "history shape", "1D mean_direction")
         with np.errstate(invalid="ignore"):
             ok = (np.isnan(a) & np.isnan(b)) | (angle_diff(a, b) <= 1e-9)
         if not np.all(ok):
